@@ -54,7 +54,7 @@ impl Prop for P {
         }
     }
     fn cases(tier: Tier) -> u64 {
-        tier.pick(24_000, 300_000)
+        tier.pick(30_000, 300_000)
     }
     fn strategy(_tier: Tier) -> BoxedStrategy<Case> {
         let cuts = (input(), ring()).prop_map(|(input, ring)| Case::Cuts { input, ring });
